@@ -215,6 +215,10 @@ def r2e_canonical_read_keys(ctx):
                     continue
                 if t[0] == "closure-param":
                     continue
+                if t[0] == "param" and "LanguageServer" not in t[1]:
+                    # parameter of a function nobody in the crate calls (library API / dead code in the binary): the
+                    # key is the external caller's, exactly like the keys the handlers pass to the called accessors
+                    continue
                 bad.append("%s %s" % (t[0], (t[2] if t[0] == "call" else t[1]).split("::")[-1] if len(t) > 2 else t[1]))
             key = "R2e|%s|%s.%s" % (op.fn.id, m, op.method)
             if bad:
